@@ -68,7 +68,18 @@ GInit ==
           LET s1 == SizesOf(k, nb, tail, big)
               b1 == BlocksOf(s1)
               r1 == SegRec(s1, b1)
-          IN \A shape \in Shapes :
+          IN \* every order of current-codec / former-codec sources in 2- and 3-source merges (no deletes)
+             /\ \A cs \in {q \in UNION {[1..m -> {"cur", "old"}] : m \in {2, 3}} : {q[i] : i \in DOMAIN q} = {"cur", "old"}} :
+                  LET m == Len(cs)
+                      srcs == [i \in 1..m |-> ShiftIds(b1, (i - 1) * Len(s1))]
+                      alv == [i \in 1..m |-> AllAlive(b1)]
+                      szs == IF m = 2 THEN s1 \o s1 ELSE s1 \o s1 \o s1
+                      sames == [i \in 1..m |-> cs[i] = "cur"]
+                  IN PrintT(<<"CASE", ToJson([k |-> k, nb |-> nb, tail |-> tail, big |-> big, shape |-> "codec_orders", cache |-> 2, blocksize |-> B,
+                                               sources |-> cs, segs |-> [i \in 1..m |-> r1], deletes |-> {}, merge |-> TRUE,
+                                               merged_blocks |-> <<Len(MergeS(srcs, alv, szs, B, sames))>>,
+                                               expect_stack |-> [i \in 1..m |-> Stacks(b1, AllAlive(b1), sames[i])]])>>)
+             /\ \A shape \in Shapes :
                LET base == Case(k, nb, tail, big, shape, 0, s1, b1, r1, s2, b2, r2)
                IN \A c \in Caches : PrintT(<<"CASE", ToJson([base EXCEPT !.cache = c])>>)
   \* stored values whose length is around a switch of the length prefix, for a text, a bytes and a JSON string leaf
